@@ -846,8 +846,9 @@ func famClient(g *sgen, i int) J {
 		w["socialCallbacks"] = J{"wrapped": asList([]interface{}{ty}), "other": []interface{}{}, "onFollow": 0.0}
 	}
 	store := jmap(w["store"])
-	members := []string{"content", "summary", "name", "published", "updated", "attributedTo", "mediaType"}
-	vals := map[string]interface{}{"content": "c", "summary": "s", "name": "n", "published": "2019-01-02T03:04:05Z", "updated": "2019-02-03T04:05:06Z", "attributedTo": alice, "mediaType": "text/plain"}
+	// vocabulary members and one extension member ("mood") the vocabulary does not know
+	members := []string{"content", "summary", "name", "published", "updated", "attributedTo", "mediaType", "mood"}
+	vals := map[string]interface{}{"content": "c", "summary": "s", "name": "n", "published": "2019-01-02T03:04:05Z", "updated": "2019-02-03T04:05:06Z", "attributedTo": alice, "mediaType": "text/plain", "mood": "happy"}
 	for _, id := range []string{local("/notes/1"), local("/notes/2")} {
 		doc := J{"type": g.r.pick([]string{"Note", "Article", "Note"}), "id": id}
 		for _, m := range members {
@@ -877,6 +878,9 @@ func famClient(g *sgen, i int) J {
 				case 1:
 					o[m] = nil // partial update: remove this member
 				}
+			}
+			if g.r.chance(12) {
+				o["weather"] = nil // null for an extension member that was never stored: nothing to remove, nothing to add
 			}
 			objs = append(objs, o)
 		}
